@@ -13,7 +13,7 @@ use refimpl as r;
 use refimpl::{Mode, Poly, MODES};
 use serde_json::json;
 
-const RULE: &str = "each case (pk bytes, message, ctx, mode, signature bytes) is given to the crate's verify/hash_verify and to the reference ML-DSA.Verify/HashML-DSA.Verify; booleans must be equal. Classes: (a) honest signatures, (b) byte/bit mutations, (c) degenerate-key (t1=0) forgeries with the largest |z| coefficient placed at gamma1-beta-1 / gamma1-beta / gamma1 / -gamma1+1 and hint weight 0/1/omega-1/omega, plus forgeries whose w' = A z is steered so that one coefficient decomposes with r0 = 0 / +-1 / +-gamma2 or sits on the r+ - r0 = q-1 corner, with and without a hint on it, (d) six classes of hint-section malformation, each also with c~ computed for the lenient reading so a lenient decoder would answer true, (e) c~ bit flips, (f) ctx lengths around 255/256/512/65536, (g) 4x4 mode cross-verification, (h) sparse-coset adversarial signatures (fixtures), (i) ACVP sigVer vectors via _internal_verify, (j) random pk/sig. Non-trivial = distinct cases of classes (c),(d),(h) plus accepted cases of (a); both verdicts must be observed in (c).";
+const RULE: &str = "each case (pk bytes, message, ctx, mode, signature bytes) is given to the crate's verify/hash_verify and to the reference ML-DSA.Verify/HashML-DSA.Verify; booleans must be equal. Classes: (a) honest signatures, (b) byte/bit mutations, (c) degenerate-key (t1=0) forgeries with the largest |z| coefficient placed at gamma1-beta-1 / gamma1-beta / gamma1 / -gamma1+1 and hint weight 0/1/omega-1/omega, plus forgeries whose w' = A z is steered so that one coefficient decomposes with r0 = 0 / +-1 / +-gamma2 or sits on the r+ - r0 = q-1 corner, with and without a hint on it, (d) six classes of hint-section malformation, each also with c~ computed for the lenient reading so a lenient decoder would answer true, (e) c~ bit flips on honest signatures and on every byte of c~ of degenerate-key forgeries (where the challenge does not influence w'), (f) ctx lengths around 255/256/512/65536, (g) 4x4 mode cross-verification, (h) sparse-coset adversarial signatures (fixtures), (i) ACVP sigVer vectors via _internal_verify, (j) random pk/sig. Non-trivial = distinct cases of classes (c),(d),(h) plus accepted cases of (a); both verdicts must be observed in (c).";
 
 pub fn run(ctx: &Ctx) -> StageOut {
     let mut acc = Acc::new();
@@ -220,6 +220,15 @@ fn run_set<S: PS>(ctx: &Ctx) -> Acc {
                 acc.sample(json!({"class": "c-boundary", "set": p.name, "mode": mode.name(), "pk": "rho || t1=0",
                     "rho": hex(&rho), "spike_value": spike, "bound_gamma1_minus_beta": bound, "hint_weight": w,
                     "message": hex_short(&m), "ctx": hex_short(&cx), "sig": hex_short(&sig), "crate_verify": got}));
+            }
+            // every byte of c~ of an accepted degenerate-key forgery: with t1 = 0 the challenge does not
+            // influence w', so only the final comparison of c~ protects these bytes
+            if si == 0 || si == 3 {
+                for pos in 0..p.lambda / 4 {
+                    let mut s2 = sig.clone();
+                    s2[pos] ^= 1 << (pos % 8);
+                    let _ = check_case::<S>(&mut acc, "e-ctilde-flip-degenerate", &dpk, &m, &cx, mode, &s2, true);
+                }
             }
             // all-maximal accepted vector: every coefficient at +-(bound-1)
             if si == 0 {
